@@ -181,6 +181,38 @@ class _ReplaceOps(_GuardOps):
             env["@replaced"] = True
 
 
+def _consistent_path(cfg, target, edge_ok) -> bool:
+    """Is ``target`` reachable from the entry along a path that never decides the same test (same text, its names not
+    re-bound in between) in two different ways?  (``if key is None and invert: .. elif key is None: ..``: the second
+    loop is not reached with invert set.)"""
+    from asl.flow import node_defs
+    seen = set()
+    work = [(cfg.entry, frozenset())]
+    while work:
+        n, decided = work.pop()
+        if n is target:
+            return True
+        if (n, decided) in seen or len(seen) > 20000:
+            continue
+        seen.add((n, decided))
+        defs = set(node_defs(n))
+        if defs:
+            decided = frozenset((t, l, names) for (t, l, names) in decided if not (set(names) & defs))
+        for lab, nxt in n.succ:
+            if not edge_ok(n, lab, nxt):
+                continue
+            d = decided
+            if n.kind == "branch" and lab in ("t", "f") and n.ast is not None and not n.info.get("const"):
+                text = norm(n.ast)
+                if any(t == text and l != lab for (t, l, _names) in decided):
+                    continue
+                names = tuple(sorted({x.id for x in ast.walk(n.ast) if isinstance(x, ast.Name)}))
+                if not any(isinstance(x, (ast.Call, ast.Await)) for x in ast.walk(n.ast)):
+                    d = decided | {(text, lab, names)}
+            work.append((nxt, d))
+    return False
+
+
 def r02_1(ctx) -> None:
     u = ctx.inlined(ctx.unit("builtins._min_max"))  # the selection may be split into private steps
     cfg = cfg_of(u)
@@ -227,7 +259,7 @@ def r02_1(ctx) -> None:
                     if isinstance(t, ast.UnaryOp) and isinstance(t.op, ast.Not) and isinstance(t.operand, ast.Name) and t.operand.id == invert:
                         return lab == ("f" if inv else "t")
                 return lab not in ("e", "p")
-            if find_path(cfg.entry, lambda x, loop=loop: x is loop, edge_ok=consistent) is None:
+            if not _consistent_path(cfg, loop, consistent):
                 continue
             for outcome in ("LT", "EQ", "GT"):
                 ctx.count("guard_cells")
@@ -527,7 +559,7 @@ def r02_4(ctx) -> None:
 
 # --------------------------------------------------------------------------- R02.5
 def r02_5(ctx) -> None:
-    u = ctx.unit("builtins.sorted")
+    u = ctx.inlined(ctx.unit("builtins.sorted"))  # (the two ways of sorting may be private steps)
     node = u.node
     sorts = [n for n in own_nodes(node) if isinstance(n, ast.Call) and (
         (isinstance(n.func, ast.Attribute) and n.func.attr == "sort") or norm(n.func).endswith("sorted"))]
@@ -640,24 +672,34 @@ def r02_6(ctx) -> None:
                   f"empty input without default/initial raises {cls} like the builtin", witness=str(names))
     u = ctx.inlined(ctx.unit("functools.reduce"))  # the seed may be chosen by a private helper
     cfg = cfg_of(u)
-    loops = [n for n in cfg.nodes if n.kind == "pull" and not n.tag]
+    from asl.flow import reaching
+    rd = reaching(cfg)
     ok = False
-    for loop in loops:
-        item = loop.ast.target.id if isinstance(getattr(loop.ast, "target", None), ast.Name) else None
-        for s in cfg.nodes:
-            if s.kind == "store" and s.in_region("loop", loop.ast) and isinstance(s.info.get("value"), ast.Await):
-                c = s.info["value"].value
-                tgt = s.info["targets"][0]
-                if isinstance(c, ast.Call) and len(c.args) == 2 and isinstance(tgt, ast.Name):
-                    ok = norm(c.args[0]) == tgt.id and norm(c.args[1]) == item
+    fold_target = None
+    for s in cfg.nodes:
+        # ``acc = await f(acc, item)`` in a loop, where ``item`` is what the loop just took from the source: the target of
+        # an ``async for`` or the value of ``await anext(it)`` / ``await it.__anext__()``
+        if s.kind == "store" and not s.tag and s.in_loop() and isinstance(s.info.get("value"), ast.Await):
+            c = s.info["value"].value
+            tgt = s.info["targets"][0]
+            if isinstance(c, ast.Call) and len(c.args) == 2 and isinstance(tgt, ast.Name) and norm(c.args[0]) == tgt.id \
+                    and isinstance(c.args[1], ast.Name):
+                defs = rd.defs_at(s, c.args[1].id)
+
+                def fetched(d) -> bool:
+                    if d.kind != "store":
+                        return False
+                    if d.info.get("source") is not None and d.info["source"].kind == "pull":
+                        return True
+                    v = d.info.get("value")
+                    v = v.value if isinstance(v, ast.Await) else None
+                    return isinstance(v, ast.Call) and norm(v.func).split(".")[-1] in ("anext", "__anext__") and len(v.args) <= 1
+                if defs and all(fetched(d) for d in defs):
+                    ok = True
+                    fold_target = tgt.id
     ctx.check(ok, "R02.6", u, "reduce", "reduce folds function(accumulator, item) in that order, re-binding the accumulator")
     # the seed: the accumulator's definitions before the loop are exactly {initial, first item}
-    acc = None
-    for loop in loops:
-        for s_ in cfg.nodes:
-            if s_.kind == "store" and s_.in_region("loop", loop.ast) and isinstance(s_.info.get("value"), ast.Await) \
-                    and isinstance(s_.info["targets"][0], ast.Name):
-                acc = s_.info["targets"][0].id
+    acc = fold_target
     seeds = set()
     initial = [p for p in u.param_names() if p == "initial"]
     from asl.flow import reaching
